@@ -51,7 +51,8 @@ class MeshLine1(MeshSimplex, Mesh):
         if self._subdomains is not None:
             # children of element k are the elements 2 * k and 2 * k + 1
             subdomains = {
-                name: np.sort(np.concatenate((2 * ixs, 2 * ixs + 1)))
+                name: np.sort(np.concatenate((2 * np.asarray(ixs),
+                                              2 * np.asarray(ixs) + 1)))
                 for name, ixs in self._subdomains.items()
             }
 
